@@ -65,7 +65,7 @@ def regenerate(locked=False):
     gen_dir = os.path.join(LEAN, "SigModel", "Gen")
     os.makedirs(gen_dir, exist_ok=True)
     tool = os.path.join(BUILD, "go2lean")
-    with Lock("go"):
+    with Lock("go"), GoCacheShared():
         rc, out, _ = sh(["go", "build", "-o", tool, "."], cwd=os.path.join(VERIF, "tools", "go2lean"), env=goenv(), timeout=600)
     if rc != 0:
         return False, ["go2lean build failed: " + out[-2000:]], {}
@@ -232,7 +232,8 @@ def build_corr(outdir=None):
         gen_root = os.path.join(work, "overlay_gen")
         shutil.rmtree(gen_root, ignore_errors=True)
         if os.path.isdir(os.path.join(HARNESS, "cmd", "overlaygen")):
-            rc, out, dt = sh(["go", "run", "-modfile", modfile, "./cmd/overlaygen", REPO, gen_root], cwd=HARNESS, env=goenv(), timeout=600)
+            with GoCacheShared():
+                rc, out, dt = sh(["go", "run", "-modfile", modfile, "./cmd/overlaygen", REPO, gen_root], cwd=HARNESS, env=goenv(), timeout=600)
             if rc != 0:
                 return False, "overlaygen failed:\n" + out, dt
             for dp, _, fns in os.walk(gen_root):
@@ -243,7 +244,8 @@ def build_corr(outdir=None):
         ovp = os.path.join(work, "overlay.json")
         json.dump({"Replace": ov}, open(ovp, "w"), indent=1)
         target = os.path.join(work, "corr") if priv else os.path.join(BUILD, "corr")
-        rc, out, dt = sh(["go", "build", "-modfile", modfile, "-tags", "verif", "-overlay", ovp, "-o", target, "./cmd/corr"], cwd=HARNESS, env=goenv(), timeout=1800)
+        with GoCacheShared():
+            rc, out, dt = sh(["go", "build", "-modfile", modfile, "-tags", "verif", "-overlay", ovp, "-o", target, "./cmd/corr"], cwd=HARNESS, env=goenv(), timeout=1800)
         if rc == 0 and priv:
             CORR = target
     finally:
@@ -288,7 +290,8 @@ def build_corr_min(prop, work, full_log):
         ovp = os.path.join(mind, "overlay.json")
         json.dump({"Replace": ovsel}, open(ovp, "w"), indent=1)
         target = os.path.join(work, "corr")
-        rc, out, dt = sh(["go", "build", "-modfile", os.path.join(mind, "go.mod"), "-tags", "verif", "-overlay", ovp, "-o", target, "./cmd/corr"], cwd=mind, env=goenv(), timeout=1800)
+        with GoCacheShared():
+            rc, out, dt = sh(["go", "build", "-modfile", os.path.join(mind, "go.mod"), "-tags", "verif", "-overlay", ovp, "-o", target, "./cmd/corr"], cwd=mind, env=goenv(), timeout=1800)
         if rc == 0:
             # worker subcommands are reached through a child process ("corr <name>"), not through a symbol:
             # a selected file that names a registered worker needs the file that implements it
@@ -491,6 +494,19 @@ def main(argv):
     return run_check(prop, tier, seed)
 
 
+class GoCacheShared:
+    """held (shared) around every go build / go run of the runner; trim_go_cache takes the same lock exclusively and
+    without waiting, so the cache is never emptied under a build of another check run"""
+    def __enter__(self):
+        os.makedirs(BUILD, exist_ok=True)
+        self.f = open(os.path.join(BUILD, "gocache.lock"), "w")
+        fcntl.flock(self.f, fcntl.LOCK_SH)
+
+    def __exit__(self, *a):
+        fcntl.flock(self.f, fcntl.LOCK_UN)
+        self.f.close()
+
+
 def trim_go_cache(limit_gb=40):
     """disk space is limited: the Go build cache grows with every distinct checkout path a check is run against
     (scratch worktrees of seeded changes); empty it when it has grown beyond limit_gb (builds then start cold)"""
@@ -502,8 +518,17 @@ def trim_go_cache(limit_gb=40):
         rc, out, _ = sh(["du", "-s", "-BG", d], timeout=300)
         gb = int(out.split()[0].rstrip("G")) if rc == 0 and out.split() else 0
         if gb > limit_gb:
-            with Lock("gocache"):
+            f = open(os.path.join(BUILD, "gocache.lock"), "w")
+            try:
+                fcntl.flock(f, fcntl.LOCK_EX | fcntl.LOCK_NB)  # nobody of us is building right now
+            except OSError:
+                f.close()
+                return
+            try:
                 sh(["go", "clean", "-cache"], env=goenv(), timeout=1800)
+            finally:
+                fcntl.flock(f, fcntl.LOCK_UN)
+                f.close()
     except Exception:
         pass
 
